@@ -239,6 +239,22 @@ func genRenames(p *Prog, f *FuncInfo, src []byte, rel string) []mutant {
 	type occ struct{ a, b int }
 	occs := map[*types.Var][]occ{}
 	order := []*types.Var{}
+	typeSwitchVars := map[token.Pos]bool{}
+	ast.Inspect(f.Decl, func(n ast.Node) bool {
+		if ts, ok := n.(*ast.TypeSwitchStmt); ok {
+			if as, ok := ts.Assign.(*ast.AssignStmt); ok && len(as.Lhs) == 1 {
+				if id, ok := as.Lhs[0].(*ast.Ident); ok {
+					typeSwitchVars[id.Pos()] = true
+					for _, cl := range ts.Body.List {
+						if o := info.Implicits[cl]; o != nil {
+							typeSwitchVars[o.Pos()] = true
+						}
+					}
+				}
+			}
+		}
+		return true
+	})
 	ast.Inspect(f.Decl, func(n ast.Node) bool {
 		id, ok := n.(*ast.Ident)
 		if !ok || id.Name == "_" {
@@ -255,6 +271,9 @@ func genRenames(p *Prog, f *FuncInfo, src []byte, rel string) []mutant {
 		}
 		if !(v.Pos() >= f.Decl.Pos() && v.Pos() <= f.Decl.End()) {
 			return true
+		}
+		if typeSwitchVars[v.Pos()] {
+			return true // the symbol of a type switch has one object per clause sharing one identifier
 		}
 		if _, seen := occs[v]; !seen {
 			order = append(order, v)
